@@ -29,7 +29,8 @@ RULE = ("metamorphic: a grammar program (C01's space, all operation groups) is "
         "of {user tag, second user tag type, unique user tag, axis tag on a "
         "drawn axis, tag on every reduction descriptor}; index arrays without "
         "negative entries may get AssumeNonNegative; inputs get user / "
-        "axis / PrefixNamed tags and (rarely) implementation tags.  Oracle: "
+        "axis / PrefixNamed tags and (rarely) implementation tags, 0-d "
+        "placeholders ForceValueArgTag.  Oracle: "
         "the tagged graph has the same output names, shapes and dtypes; its "
         "generation and compilation succeed whenever the untagged program's "
         "do; every output equals NumPy's reference within the same bound the "
@@ -95,6 +96,12 @@ def assignments(draw, spec, nonneg=frozenset()):
                 ts.append(draw(st.sampled_from(IMPL[1:])))
             if n["op"] == "data" and draw(st.integers(0, 3)) == 0:
                 ts.append(["PrefixNamed", "dw"])
+            if (n["op"] == "placeholder" and not n["p"]["shape"]
+                    and not n["p"]["dtype"].startswith("complex")
+                    and draw(st.booleans())):
+                # a 0-d input passed by value instead of by reference (the
+                # launcher of this harness cannot pass complex by value)
+                ts.append(["ForceValueArg"])
         k = draw(st.integers(0, 7))
         if k & 1:
             ts.append(["User", f"u{i % 3}"])
@@ -243,7 +250,48 @@ def run_shard(shard: int, nshards: int, seed: int, tier: str) -> ShardResult:
 
     hyp_run(st.tuples(progen.programs(cfg), st.data()), body, seed,
             pl["examples"])
+    for k, case in enumerate(shared_buffer_gadgets()):
+        if k % nshards != shard:
+            continue
+        res.evaluations += 1
+        res.count("shared_buffer_gadget")
+        with warnings.catch_warnings():
+            warnings.simplefilter("ignore")
+            f, info = case_oracle(case)
+        if "skip" in info:
+            res.skip(info["skip"][:70])
+            continue
+        res.nontrivial.add(spec_hash({"s": case["spec"], "t": case["tags"]}))
+        if f is not None:
+            res.fail(f, case)
     return res
+
+
+def shared_buffer_gadgets():
+    """one buffer wrapped by two DataWrapper nodes (wrappers compare by
+    identity, so these are two inputs): tags on one or both of them must not
+    change what is computed, however the code generator binds the buffer"""
+    def data(values, shape):
+        return {"op": "data", "p": {"dtype": "float64", "shape": shape,
+                                    "scale": 1, "values": values, "share": 0}}
+    vals = [1, -2, 3, 5, 8, -13]
+    tagsets = ([["User", "u0"]], [["Axis", 0, "ax0"]], [["Axis", -1, "ax1"]],
+               [["PrefixNamed", "dw"]], [["ImplStored"]],
+               [["User", "u1"], ["Axis", 0, "ax0"]])
+    for shape in ([6], [2, 3]):
+        for body in ("add", "mul", "outer"):
+            nodes = [data(vals, shape), data(vals, shape)]
+            if body == "outer":
+                nodes += [{"op": "mul", "args": [["n", 1], ["py", 2]]},
+                          {"op": "sub", "args": [["n", 0], ["n", 2]]}]
+            else:
+                nodes += [{"op": "neg", "args": [["n", 1]]},
+                          {"op": body, "args": [["n", 0], ["n", 2]]}]
+            spec = {"nodes": nodes, "outputs": [["out0", 3], ["out1", 2]]}
+            for t1 in tagsets:
+                yield {"spec": spec, "tags": {"1": t1}}
+                yield {"spec": spec, "tags": {"0": t1}}
+            yield {"spec": spec, "tags": {"0": tagsets[0], "1": tagsets[1]}}
 
 
 def replay(case) -> Failure | None:
